@@ -13,6 +13,7 @@ import (
 	"encoding/json"
 	"fmt"
 	"os"
+	"os/exec"
 	"runtime"
 	"runtime/debug"
 	"runtime/pprof"
@@ -451,6 +452,7 @@ func main() {
 		"Part 1 (seq): per configuration %s of the alphabet [%s] (the letter set is extended by the last letter, a sequence-number jump of +32768, when every transport is reliable); one always-on reader; words run in batches of 120 in one world with a delivery barrier after each word; sequence numbers consecutive from {0, 65534, 65531} per batch (reliable transports: every word restarts at 0 or 65534, i.e. an arbitrary jump between words). "+
 		"Part 2 (place): per configuration the fixed packet sequence [%s] with ALL placements (7 slots, non-decreasing) of the event scripts of one reader {%s} (j join, p PAUSE, r re-PLAY, t TEARDOWN, c abrupt close of the connection); two readers: scripts {%s} x {%s} at all placements - always: on stream-to-reader/tcp and relay/tcp>tcp of shape 2m one reader always on and the other running every placement (both on tcp); budget permitting: the full product per configuration (reader 1 on the configuration's second transport), quick: the two tcp configurations of shape 2m, thorough: all 14 configurations of shape 2m then tcp and udp of shape 1m2f. A fresh world per case, start sequence number alternating 0/65534 (TLS: 0). "+
 		"Part 3: one case per TLS configuration with a reader joining exactly at the sequence-number wrap. Part 4 (report only): PAUSE/TEARDOWN right after the six packets without barrier. "+
+		"Part 5 (write boundaries, companion binary): {Server session playing to a raw reader over TCP, Client recording to a scripted server over TCP} x 3 packet-size lists; after EVERY socket write of the media writer the writer is held, the peer sends a request (GET_PARAMETER / OPTIONS) and the answer is written by the other goroutine before the writer continues; the receiving side parses the stream with conn.Conn: every element parses, the RTP channel carries exactly the packets written, every request gets its answer; 3 identical runs. "+
 		"Before PAUSE and TEARDOWN the harness runs a delivery barrier for that reader (a sentinel packet per (media, format), wait for its arrival); abrupt close is issued without one; a final barrier ends every case. Work packages run in a fixed order while the wall-clock budget lasts (quick %v, thorough %v after start); packages not run are listed under caps_hit and make exhaustive=false. "+
 		"state = (configuration, vector of reader states none/playing/paused/gone); transition = one write, barrier or reader event executed on the implementation; trace = one world. evaluation = one packet word or one placement case; non-trivial = at least one packet reached a reader's callback; distinct = distinct (configuration, step list).",
 		len(configs()), wsText, lettersString(seqAlphabet), lettersString(placeSeq), strings.Join(scripts(ev1), ","), strings.Join(scripts(ev2), ","), strings.Join(scripts(ev2), ","), budgetQuick, budgetThorough))
@@ -461,10 +463,15 @@ func main() {
 
 	if run.Replay != "" {
 		var d struct {
-			Case Case `json:"case"`
+			Case     Case `json:"case"`
+			Boundary bool `json:"write_boundary"`
 		}
 		if err := evid.LoadReplay(run.Replay, &d); err != nil {
 			run.Fatal("replay: %v", err)
+		}
+		if d.Boundary {
+			boundary(run)
+			run.Finish()
 		}
 		rs := evid.RunJobs([]any{job{Cases: []Case{d.Case}}}, 1, 5*time.Minute)
 		run.Eval(1)
@@ -908,6 +915,7 @@ func main() {
 	if run.NeedSample() && len(cases) > 0 {
 		run.Sample(map[string]any{"history": caseString(expand(cases[len(cases)-1]))})
 	}
+	boundary(run)
 	run.Finish()
 }
 
@@ -925,4 +933,66 @@ func lettersString(ls []Letter) string {
 		s = append(s, "("+l.String()+")")
 	}
 	return strings.Join(s, " ")
+}
+
+// boundary runs the write-boundary companion (checks/c01sys): at every socket write of the media writer
+// (Server session playing over TCP; Client recording over TCP) the peer's request is answered by the
+// other goroutine before the writer continues; the receiving side must still parse every element and
+// see exactly the packets written.
+func boundary(run *evid.Run) {
+	bin := os.Getenv("VERIF_SYS")
+	if bin == "" {
+		run.Fatal("VERIF_SYS not set: run through ./vcheck")
+	}
+	type bres struct {
+		Scenario   string `json:"scenario"`
+		Sizes      []int  `json:"payload_sizes"`
+		Written    int    `json:"packets_written"`
+		Boundaries int    `json:"write_boundaries_with_injection"`
+		Responses  int    `json:"responses_seen"`
+		Frames     int    `json:"frames_seen"`
+		Fail       string `json:"fail"`
+		Msg        string `json:"msg"`
+		Err        string `json:"harness_error"`
+	}
+	var out struct {
+		Cases []bres `json:"cases"`
+	}
+	var first string
+	for rep := 0; rep < 3; rep++ {
+		b, err := exec.Command(bin).Output()
+		if err != nil {
+			run.Fatal("write-boundary binary failed: %v", err)
+		}
+		if rep == 0 {
+			first = string(b)
+			if err := json.Unmarshal(b, &out); err != nil {
+				run.Fatal("write-boundary output: %v", err)
+			}
+		} else if string(b) != first {
+			run.Flaky("write-boundary: two runs of the same cases differ")
+			return
+		}
+	}
+	tot := 0
+	for _, c := range out.Cases {
+		run.Eval(1)
+		run.Trace(1)
+		run.Transition(int64(c.Written + c.Boundaries))
+		run.State(fmt.Sprint("write-boundary/", c.Scenario, c.Sizes))
+		if c.Boundaries > 0 {
+			run.Nontrivial(fmt.Sprint("write-boundary/", c.Scenario, c.Sizes))
+		}
+		run.Outcome(fmt.Sprint("write-boundary/", c.Scenario, "/", c.Fail == ""))
+		tot += c.Boundaries
+		switch {
+		case c.Err != "":
+			run.Violation("write-boundary/"+c.Scenario+"/harness", map[string]any{"write_boundary": true, "case": c, "msg": c.Err})
+		case c.Fail != "":
+			run.Violation("write-boundary/"+c.Scenario+"/"+c.Fail, map[string]any{"write_boundary": true, "case": c, "msg": c.Msg})
+		case c.Boundaries < c.Written:
+			run.Violation("write-boundary/"+c.Scenario+"/harness", map[string]any{"write_boundary": true, "case": c, "msg": "fewer injections than packets: the hook did not see the writes"})
+		}
+	}
+	run.Set("write_boundaries_with_an_injected_answer", tot)
 }
